@@ -3,6 +3,7 @@ import KtVerif.Model.Minimiser
 import KtVerif.Model.Vectors
 import KtVerif.Model.Fasta
 import KtVerif.DriverSched
+import KtVerif.Model.MinOut
 /-!
 # Driver glue (trusted, thin): parsing of request lines, printing of answers.
 
@@ -157,7 +158,38 @@ def parseSrcRecs (s : String) : List SrcRec :=
       | [i, d, q, u] => some { id := unhex i, desc := if d = "~" then none else some (unhex d), seq := unhex q, qual := unhex u }
       | _ => none
 
+/-- run-length encoding of a sorted list -/
+def rle : List Nat → List (Nat × Nat)
+  | [] => []
+  | x :: xs =>
+    match rle xs with
+    | (y, c) :: rest => if x = y then (y, c + 1) :: rest else (x, 1) :: (y, c) :: rest
+    | [] => [(x, 1)]
+
+def recsOf (s : String) : List (List Nat) := if s = "-" then [] else (s.splitOn ",").map unhex
+
+/-- records as `idhex:seqhex,…` -/
+def idRecsOf (s : String) : List (List Nat × List Nat) :=
+  if s = "-" then [] else (s.splitOn ",").filterMap fun e =>
+    match e.splitOn ":" with
+    | [a, b] => some (unhex a, unhex b)
+    | _ => none
+
 def answerIo : List String → Option String
+  | ["s2m", w, m, recs] =>
+    let w := w.toNat!; let m := m.toNat!
+    let rs := idRecsOf recs
+    if rs.all (fun r => minOutSafe w m r.2) then
+      some (joinWith "|" ["ok", fmtHexList (rs.map fun r => s2mLine w m r.1 r.2),
+        fmtHexList (rs.map fun r => s2mLineSpec w m r.1 r.2)])
+    else some "panic:min-new"
+  | ["counts", k, recs] =>
+    -- C07 spec: every distinct canonical k-mer of the input with its multiplicity `countsOf`
+    let k := k.toNat!
+    let all := ((recsOf recs).flatMap (canons k)).mergeSort (fun a b => decide (a ≤ b))
+    let tbl := rle all
+    some (joinWith "|" ["ok", joinWith "," (tbl.map fun p => s!"{p.1}:{p.2}"), toString all.length,
+      fmtHexList (tbl.map fun p => numericToKmer k p.1)])
   | ["parse", fmt, hx] =>
     let f := if fmt = "fasta" then SeqFormat.fasta else SeqFormat.fastq
     let bytes := unhex hx
